@@ -543,6 +543,10 @@ func runFrame(fr *frame) {
 		R.steps += int64(len(fr.block.Instrs))
 		R.fnSteps[fr.fn] += len(fr.block.Instrs)
 		if R.steps > R.cfg.MaxSteps {
+			if R.cfg.UnwindViolation {
+				R.violation("unwind", "does not terminate within the step bound", fr.fn.String(), fmt.Sprintf("more than %d instructions on one path", R.cfg.MaxSteps), nil)
+				panic(runAbort{"step limit"})
+			}
 			R.event("STEP-LIMIT: more than %d instructions on one path (in %s)", R.cfg.MaxSteps, fr.fn)
 			panic(runAbort{"step limit"})
 		}
